@@ -1342,3 +1342,618 @@ Definition step_of_writer (s : Write.step) : list step :=
   | _ => []
   end.
 Definition steps_of_writer (w : Write.writer) : list step := flat_map step_of_writer (Write.w_body w).
+
+(* ================================================================== either block means the same: read *)
+(* the meaning of a file by MCNP's rule: the cell parameter, else the i-th entry of the data-block vector (not a
+   jump), else the default.  A particle cannot be on two IMP cards and a class cannot be given twice (read refuses
+   both), so which card wins is immaterial; the definitions below take the last. *)
+Fixpoint first_imp (q : particle) (ps : list (list particle * Z)) : option Z :=
+  match ps with
+  | [] => None
+  | (qs, v) :: r => if mem q qs then Some v else first_imp q r
+  end.
+
+Fixpoint data_imp (q : particle) (i : nat) (d : list fditem) : option Z :=
+  match d with
+  | [] => None
+  | FImp ps vec :: r =>
+      match data_imp q i r with
+      | Some v => Some v
+      | None => if mem q ps then nth_error vec i else None
+      end
+  | _ :: r => data_imp q i r
+  end.
+
+Definition data_val (k : cls) (i : nat) (d : list fditem) : option Z :=
+  match find_vec d k with
+  | Some vec => match nth_error vec i with Some (Some z) => Some z | _ => None end
+  | None => None
+  end.
+
+Definition orelse {A} (a b : option A) : option A := match a with Some _ => a | None => b end.
+
+Definition denote_cell (mode : list particle) (d : list fditem) (i : nat) (fc : fcell) : apicell :=
+  mkA (fc_num fc)
+      (map (fun q => (q, match first_imp q (fc_imp fc) with
+                         | Some v => v
+                         | None => match data_imp q i d with Some v => v | None => 0%Z end
+                         end)) mode)
+      (orelse (fc_vol fc) (data_val CVol i d))
+      (Some (match orelse (fc_u fc) (data_val CU i d) with Some u => u | None => 0%Z end))
+      (orelse (fc_lat fc) (data_val CLat i d))
+      (orelse (fc_fill fc) (data_val CFill i d)).
+
+Fixpoint denote_from (mode : list particle) (d : list fditem) (i : nat) (l : list fcell) : list apicell :=
+  match l with
+  | [] => []
+  | fc :: r => denote_cell mode d i fc :: denote_from mode d (S i) r
+  end.
+Definition denote (f : file) : list apicell := denote_from (f_mode f) (f_data f) 0 (f_cells f).
+
+Lemma denote_from_nth : forall mode d l off i fc, nth_error l i = Some fc ->
+  nth_error (denote_from mode d off l) i = Some (denote_cell mode d (off + i) fc).
+Proof.
+  induction l as [|x r IH]; intros off i fc H; destruct i; simpl in *; try discriminate.
+  - inversion H; subst. rewrite Nat.add_0_r. reflexivity.
+  - rewrite (IH (S off) i fc H). f_equal. f_equal. lia.
+Qed.
+
+Lemma denote_from_length : forall mode d l off, List.length (denote_from mode d off l) = List.length l.
+Proof. induction l; intros; simpl; auto. Qed.
+
+Lemma nth_error_ext_eq : forall {A} (l1 l2 : list A), (forall i, nth_error l1 i = nth_error l2 i) -> l1 = l2.
+Proof.
+  induction l1 as [|x r IH]; intros [|y s] H; auto.
+  - specialize (H 0%nat). discriminate.
+  - specialize (H 0%nat). discriminate.
+  - pose proof (H 0%nat) as H0. simpl in H0. inversion H0; subst. f_equal. apply IH. intro i. apply (H (S i)).
+Qed.
+
+(* --- pointwise relations between cell lists *)
+Definition rel (F : nat -> cell -> cell -> Prop) (a b : list cell) : Prop :=
+  List.length b = List.length a /\
+  forall i c, nth_error a i = Some c -> exists c', nth_error b i = Some c' /\ F i c c'.
+
+Lemma rel_refl : forall (F : nat -> cell -> cell -> Prop) a, (forall i c, F i c c) -> rel F a a.
+Proof. intros F a H. split; auto. intros i c Hc. eauto. Qed.
+
+Lemma rel_trans : forall (F G H : nat -> cell -> cell -> Prop) a b c,
+  rel F a b -> rel G b c -> (forall i x y z, F i x y -> G i y z -> H i x z) -> rel H a c.
+Proof.
+  intros F G H a b c [L1 R1] [L2 R2] T. split; [congruence|].
+  intros i x Hx. destruct (R1 i x Hx) as [y [Hy Fy]]. destruct (R2 i y Hy) as [z [Hz Gz]]. eauto.
+Qed.
+
+Lemma rel_weaken : forall (F G : nat -> cell -> cell -> Prop) a b,
+  rel F a b -> (forall i x y, F i x y -> G i x y) -> rel G a b.
+Proof. intros F G a b [L R] W. split; auto. intros i x Hx. destruct (R i x Hx) as [y [Hy Fy]]. eauto. Qed.
+
+Lemma rel_map : forall (F : nat -> cell -> cell -> Prop) (f : cell -> cell) a,
+  (forall i c, F i c (f c)) -> rel F a (map f a).
+Proof.
+  intros F f a H. split; [apply map_length|]. intros i c Hc. exists (f c). split; auto.
+  rewrite nth_error_map, Hc. reflexivity.
+Qed.
+
+(* the fields a push of class k leaves alone *)
+Definition frame (k : cls) (c c' : cell) : Prop :=
+  c_num c' = c_num c /\
+  (k <> CImp -> c_imp c' = c_imp c) /\ (k <> CVol -> c_vol c' = c_vol c) /\ (k <> CU -> c_u c' = c_u c) /\
+  (k <> CLat -> c_lat c' = c_lat c) /\ (k <> CFill -> c_fill c' = c_fill c) /\
+  (forall k', set_of c' k' = set_of c k').
+
+Lemma frame_refl : forall k c, frame k c c.
+Proof. intros. unfold frame. auto 10. Qed.
+
+(* --- importance dicts whose trees are not shared *)
+Definition singles (g : list igroup) : bool :=
+  forallb (fun gr : igroup => match fst gr with [_] => true | _ => false end) g.
+
+Lemma remove_p_self : forall q, remove_p q [q] = [].
+Proof. intro q. unfold remove_p. simpl. rewrite Nat.eqb_refl. reflexivity. Qed.
+
+Lemma mem_single : forall x k, mem x [k] = Nat.eqb x k.
+Proof. intros. unfold mem. simpl. apply orb_false_r. Qed.
+
+Lemma iset_existing_single : forall q v g, singles g = true ->
+  singles (iset_existing q v g) = true /\
+  forall x, ival x (iset_existing q v g) =
+            if andb (Nat.eqb x q) (mem q (ikeys g)) then v else ival x g.
+Proof.
+  intros q v. induction g as [|[ks t] r IH]; intros S.
+  - split; auto. intro x. simpl. rewrite andb_false_r. reflexivity.
+  - simpl in S. apply andb_true_iff in S. destruct S as [Sk Sr].
+    destruct ks as [|k [|k2 ks]]; try discriminate.
+    change (ikeys (([k], t) :: r)) with ([k] ++ ikeys r). rewrite mem_app, mem_single.
+    cbn [iset_existing]. rewrite mem_single.
+    destruct (Nat.eqb q k) eqn:E.
+    + apply Nat.eqb_eq in E. subst k. rewrite remove_p_self. split.
+      * simpl. exact Sr.
+      * intro x. unfold ival. cbn [ifind]. rewrite !mem_single.
+        destruct (Nat.eqb x q); reflexivity.
+    + destruct (IH Sr) as [S' V]. split; [simpl; exact S'|].
+      intro x. unfold ival in *. cbn [ifind]. rewrite mem_single.
+      destruct (Nat.eqb x k) eqn:Ex.
+      * apply Nat.eqb_eq in Ex. subst x. rewrite Nat.eqb_sym, E. reflexivity.
+      * rewrite V. reflexivity.
+Qed.
+
+Lemma ifind_app : forall x g h, ifind x (g ++ h) = match ifind x g with Some t => Some t | None => ifind x h end.
+Proof.
+  induction g as [|[ks t] r IH]; simpl; intros; auto. destruct (mem x ks); auto.
+Qed.
+
+Lemma iset_single : forall l m q v g, singles g = true ->
+  singles (iset l m q v g) = true /\
+  forall x, ival x (iset l m q v g) = if Nat.eqb x q then v else ival x g.
+Proof.
+  intros l m q v g S. unfold iset. destruct (mem q (ikeys g)) eqn:Ek.
+  - destruct (iset_existing_single q v g S) as [S' V]. split; auto.
+    intro x. rewrite V, Ek, andb_true_r. reflexivity.
+  - split.
+    + unfold singles in *. rewrite forallb_app, S. reflexivity.
+    + intro x. unfold ival. rewrite ifind_app. cbn [ifind]. rewrite mem_single.
+      destruct (Nat.eqb x q) eqn:Ex.
+      * apply Nat.eqb_eq in Ex. subst x.
+        destruct (ifind q g) eqn:Ef; auto.
+        assert (mem q (ikeys g) = true) by (apply ifind_key; eauto). congruence.
+      * destruct (ifind x g); reflexivity.
+Qed.
+
+Lemma singles_iupd : forall q f g, singles (iupd q f g) = singles g.
+Proof.
+  intros q f. induction g as [|[ks t] r IH]; simpl; auto.
+  destruct (mem q ks); simpl; [reflexivity|]. rewrite IH. reflexivity.
+Qed.
+
+Definition imp_step (ps : list particle) (q : particle) (v : Z) (c : cell) : cell :=
+  set_imp c (iupd q (fun t => mkT (t_val t) ps ps) (iset true [] q v (c_imp c))).
+
+Lemma imp_step_spec : forall ps q v c, singles (c_imp c) = true ->
+  frame CImp c (imp_step ps q v c) /\ singles (c_imp (imp_step ps q v c)) = true /\
+  forall x, ival x (c_imp (imp_step ps q v c)) = if Nat.eqb x q then v else ival x (c_imp c).
+Proof.
+  intros ps q v c S. destruct (iset_single true [] q v (c_imp c) S) as [S' V].
+  split; [|split].
+  - unfold frame, imp_step, set_imp. simpl. repeat split; auto; intros; try contradiction.
+  - unfold imp_step, set_imp. simpl. rewrite singles_iupd. exact S'.
+  - intro x. unfold imp_step, set_imp. simpl. rewrite ival_iupd; auto.
+Qed.
+
+(* what the importance of a cell is after a push, for a cell whose trees are not shared *)
+Definition imp_after (P : particle -> option Z) (c c' : cell) : Prop :=
+  frame CImp c c' /\
+  (singles (c_imp c) = true ->
+   singles (c_imp c') = true /\
+   forall x, ival x (c_imp c') = match P x with Some v => v | None => ival x (c_imp c) end).
+
+Lemma push_imp_vec_rel : forall ps q vec cells cells',
+  push_imp_vec ps q vec cells = Ok cells' ->
+  rel (fun i c c' => exists v, nth_error vec i = Some v /\ c' = imp_step ps q v c) cells cells'.
+Proof.
+  intros ps q. induction vec as [|v vr IH]; intros cells cells' H.
+  - destruct cells; simpl in H; try discriminate. inversion H. split; auto. intros i c Hc. destruct i; discriminate.
+  - destruct cells as [|c r]; simpl in H.
+    + inversion H. split; auto. intros i c Hc. destruct i; discriminate.
+    + destruct (push_imp_vec ps q vr r) as [r'|] eqn:E; try discriminate. inversion H; subst.
+      destruct (IH _ _ E) as [L R]. split; [simpl; congruence|].
+      intros [|i] c0 Hc; simpl in *.
+      * inversion Hc; subst. eauto.
+      * apply R. exact Hc.
+Qed.
+
+Lemma frame_trans : forall k a b c, frame k a b -> frame k b c -> frame k a c.
+Proof.
+  intros k a b c [A1 [A2 [A3 [A4 [A5 [A6 A7]]]]]] [B1 [B2 [B3 [B4 [B5 [B6 B7]]]]]].
+  unfold frame. repeat split; intros; try congruence;
+    try (rewrite B2, A2; auto); try (rewrite B3, A3; auto); try (rewrite B4, A4; auto);
+    try (rewrite B5, A5; auto); try (rewrite B6, A6; auto); try (rewrite B7, A7; auto).
+Qed.
+
+Lemma imp_step_frame : forall ps q v c, frame CImp c (imp_step ps q v c).
+Proof.
+  intros. unfold frame, imp_step, set_imp. simpl. repeat split; auto; intros; try contradiction.
+Qed.
+
+Lemma mem_cons : forall x q r, mem x (q :: r) = orb (Nat.eqb x q) (mem x r).
+Proof. reflexivity. Qed.
+
+Lemma push_imp_card_rel : forall mode ps qs vec cells cells',
+  push_imp_card mode ps qs vec cells = Ok cells' ->
+  rel (fun i c c' => imp_after (fun x => if mem x qs then nth_error vec i else None) c c') cells cells'.
+Proof.
+  intros mode ps. induction qs as [|q r IH]; intros vec cells cells' H.
+  - simpl in H. inversion H; subst. apply rel_refl. intros i c. split; [apply frame_refl|]. intro S. split; auto.
+  - simpl in H. destruct cells as [|c0 cs].
+    + specialize (IH _ _ _ H). destruct IH as [L _]. destruct cells'; try discriminate.
+      split; auto. intros i c Hc. destruct i; discriminate.
+    + destruct vec as [|v0 vr]; try discriminate.
+      destruct (negb (mem q mode)); try discriminate.
+      destruct (push_imp_vec ps q (v0 :: vr) (c0 :: cs)) as [c1|] eqn:E1; try discriminate.
+      pose proof (push_imp_vec_rel _ _ _ _ _ E1) as R1. specialize (IH _ _ _ H).
+      eapply rel_trans; [exact R1|exact IH|].
+      intros i x y z [v [Hv ->]] [Fz Sz]. split.
+      * eapply frame_trans; [apply imp_step_frame|exact Fz].
+      * intro S. destruct (imp_step_spec ps q v x S) as [_ [S1 V1]].
+        destruct (Sz S1) as [S2 V2]. split; auto.
+        intro p. rewrite V2, mem_cons. destruct (mem p r) eqn:Er.
+        -- rewrite orb_true_r. rewrite Hv. reflexivity.
+        -- rewrite orb_false_r. rewrite V1. destruct (Nat.eqb p q); [rewrite Hv|]; reflexivity.
+Qed.
+
+Lemma push_imp_rel : forall mode d cells cells', push_imp mode d cells = Ok cells' ->
+  rel (fun i c c' => imp_after (fun x => data_imp x i d) c c') cells cells'.
+Proof.
+  intros mode. induction d as [|x r IH]; intros cells cells' H.
+  - simpl in H. inversion H; subst. apply rel_refl. intros i c. split; [apply frame_refl|]. intro S. split; auto.
+  - destruct x as [|ps vec|k vec]; simpl in H.
+    + eapply rel_weaken; [apply IH; exact H|]. intros i a b Hab. exact Hab.
+    + destruct (push_imp_card mode ps ps vec cells) as [c1|] eqn:E1; try discriminate.
+      pose proof (push_imp_card_rel _ _ _ _ _ _ E1) as R1. specialize (IH _ _ H).
+      eapply rel_trans; [exact R1|exact IH|].
+      intros i a b c [F1 S1] [F2 S2]. split; [eapply frame_trans; eauto|].
+      intro S. destruct (S1 S) as [Sb Vb]. destruct (S2 Sb) as [Sc Vc]. split; auto.
+      intro p. rewrite Vc. simpl. destruct (data_imp p i r); auto.
+    + eapply rel_weaken; [apply IH; exact H|]. intros i a b Hab. exact Hab.
+Qed.
+
+Lemma data_imp_no_card : forall d x i, has_card d CImp = false -> data_imp x i d = None.
+Proof.
+  induction d as [|y r IH]; intros x i H; simpl in *; auto.
+  destruct y as [|ps vec|k vec]; simpl in H.
+  - apply IH. exact H.
+  - discriminate.
+  - apply orb_false_iff in H. destruct H as [_ H]. apply IH. exact H.
+Qed.
+
+Lemma redundant_false : forall cells k c, redundant cells k = false -> In c cells -> set_of c k = false.
+Proof.
+  intros cells k c H Hin. unfold redundant in H.
+  destruct (set_of c k) eqn:E; auto.
+  assert (existsb (fun c0 => set_of c0 k) cells = true) by (apply existsb_exists; eauto). congruence.
+Qed.
+
+Lemma push_cls_imp : forall mode d cells cells', push_cls mode d CImp cells = Ok cells' ->
+  (has_card d CImp = false /\ cells' = cells) \/
+  (has_card d CImp = true /\ redundant cells CImp = false /\
+   rel (fun i c c' => imp_after (fun x => data_imp x i d) c c') cells cells').
+Proof.
+  intros mode d cells cells' H. simpl in H. destruct (has_card d CImp) eqn:Eh.
+  - destruct (redundant cells CImp) eqn:Er; try discriminate. right. split; auto. split; auto.
+    apply (push_imp_rel _ _ _ _ H).
+  - inversion H. left. auto.
+Qed.
+
+(* --- the vector classes *)
+Lemma push_vec_nil : forall setter vec, push_vec setter vec [] = [].
+Proof. intros. destruct vec; reflexivity. Qed.
+
+Lemma push_vec_rel : forall setter vec cells,
+  rel (fun i c c' => c' = match nth_error vec i with Some v => setter c v | None => c end)
+      cells (push_vec setter vec cells).
+Proof.
+  intros setter vec cells. revert vec. induction cells as [|c r IH]; intros vec; unfold rel.
+  - rewrite push_vec_nil. split; auto. intros i c Hc. destruct i; discriminate.
+  - destruct vec as [|v vr].
+    + simpl. split; auto. intros i c0 Hc. exists c0. split; auto. destruct i; reflexivity.
+    + simpl. destruct (IH vr) as [L R]. split; [simpl; congruence|].
+      intros [|i] c0 Hc; simpl in *.
+      * inversion Hc; subst. eauto.
+      * apply R. exact Hc.
+Qed.
+
+Definition vol_of_entry (v : option Z) : vvol := match v with Some z => VSet z | None => VNone end.
+
+Definition Fimp (d : list fditem) (i : nat) (c c' : cell) : Prop :=
+  (has_card d CImp = false /\ c' = c) \/
+  (has_card d CImp = true /\ c_imp_set c = false /\ imp_after (fun x => data_imp x i d) c c').
+
+Definition Fvec (d : list fditem) (k : cls) (setter : cell -> option Z -> cell) (check : bool) (i : nat) (c c' : cell) : Prop :=
+  match find_vec d k with
+  | Some (x :: r) => (check = true -> set_of c k = false) /\
+                     c' = match nth_error (x :: r) i with Some v => setter c v | None => c end
+  | _ => c' = c
+  end.
+
+Lemma rel_In : forall (F G : nat -> cell -> cell -> Prop) a b,
+  rel F a b -> (forall i x y, In x a -> F i x y -> G i x y) -> rel G a b.
+Proof.
+  intros F G a b [L R] W. split; auto. intros i x Hx. destruct (R i x Hx) as [y [Hy Fy]].
+  exists y. split; auto. apply W; auto. eapply nth_error_In; eauto.
+Qed.
+
+Lemma push_cls_imp_rel : forall mode d cells cells', push_cls mode d CImp cells = Ok cells' ->
+  rel (Fimp d) cells cells'.
+Proof.
+  intros mode d cells cells' H. destruct (push_cls_imp _ _ _ _ H) as [[A ->]|[A [B R]]].
+  - apply rel_refl. intros i c. left. auto.
+  - eapply rel_In; [exact R|]. intros i x y Hin Hxy. right. split; auto. split; auto.
+    apply (redundant_false _ _ _ B Hin).
+Qed.
+
+Lemma push_cls_vol_rel : forall mode d cells cells', push_cls mode d CVol cells = Ok cells' ->
+  rel (Fvec d CVol (fun c v => set_vol c (vol_of_entry v)) true) cells cells'.
+Proof.
+  intros mode d cells cells' H. simpl in H. unfold Fvec.
+  destruct (find_vec d CVol) as [[|x r]|].
+  - inversion H. apply rel_refl. auto.
+  - destruct (redundant cells CVol) eqn:Er; try discriminate. match type of H with Ok ?t = Ok _ => assert (E : cells' = t) by congruence end; subst cells'; clear H.
+    eapply rel_In; [apply push_vec_rel|]. intros i a b Hin Hab. split; auto.
+    intros _. apply (redundant_false _ _ _ Er Hin).
+  - inversion H. apply rel_refl. auto.
+Qed.
+
+Lemma push_cls_lat_rel : forall mode d cells cells', push_cls mode d CLat cells = Ok cells' ->
+  rel (Fvec d CLat set_lat true) cells cells'.
+Proof.
+  intros mode d cells cells' H. simpl in H. unfold Fvec.
+  destruct (find_vec d CLat) as [[|x r]|].
+  - inversion H. apply rel_refl. auto.
+  - destruct (redundant cells CLat) eqn:Er; try discriminate.
+    destruct (Nat.ltb _ _); try discriminate. match type of H with Ok ?t = Ok _ => assert (E : cells' = t) by congruence end; subst cells'; clear H.
+    eapply rel_In; [apply push_vec_rel|]. intros i a b Hin Hab. split; auto.
+    intros _. apply (redundant_false _ _ _ Er Hin).
+  - inversion H. apply rel_refl. auto.
+Qed.
+
+Lemma push_cls_fill_rel : forall mode d cells cells', push_cls mode d CFill cells = Ok cells' ->
+  rel (Fvec d CFill set_fill false) cells cells'.
+Proof.
+  intros mode d cells cells' H. simpl in H. unfold Fvec.
+  destruct (find_vec d CFill) as [[|x r]|].
+  - inversion H. apply rel_refl. auto.
+  - match type of H with Ok ?t = Ok _ => assert (E : cells' = t) by congruence end; subst cells'; clear H.
+    eapply rel_In; [apply push_vec_rel|]. intros i a b Hin Hab. split; auto. discriminate.
+  - inversion H. apply rel_refl. auto.
+Qed.
+
+Definition u_default (c : cell) : cell := set_u c (Some (match c_u c with Some u => u | None => 0%Z end)).
+
+Lemma push_cls_u_rel : forall mode d cells cells', push_cls mode d CU cells = Ok cells' ->
+  rel (fun i c c' => exists cm, Fvec d CU set_u true i c cm /\ c' = u_default cm) cells cells'.
+Proof.
+  intros mode d cells cells' H. simpl in H.
+  assert (G : forall mid, rel (Fvec d CU set_u true) cells mid ->
+              rel (fun i c c' => exists cm, Fvec d CU set_u true i c cm /\ c' = u_default cm) cells
+                  (map (fun c => set_u c (Some (match c_u c with Some u => u | None => 0%Z end))) mid)).
+  { intros mid R. eapply rel_trans; [exact R|apply (rel_map (fun _ a b => b = u_default a))|].
+    - intros i c. reflexivity.
+    - intros i x y z Hxy Hyz. exists y. auto. }
+  unfold Fvec in *.
+  destruct (find_vec d CU) as [[|x r]|].
+  - inversion H. apply G. apply rel_refl. auto.
+  - destruct (redundant cells CU) eqn:Er; try discriminate.
+    destruct (Nat.ltb _ _); try discriminate.
+    match type of H with Ok (map _ ?t) = Ok _ => assert (E : cells' = map (fun c => set_u c (Some (match c_u c with Some u => u | None => 0%Z end))) t) by congruence end; subst cells'; clear H. apply G.
+    eapply rel_In; [apply push_vec_rel|]. intros i a b Hin Hab. split; auto.
+    intros _. apply (redundant_false _ _ _ Er Hin).
+  - inversion H. apply G. apply rel_refl. auto.
+Qed.
+
+(* --- parsing a cell card *)
+Lemma ikeys_app : forall a b, ikeys (a ++ b) = ikeys a ++ ikeys b.
+Proof. intros. unfold ikeys. apply flat_map_app. Qed.
+
+Lemma ival_not_key : forall x g, mem x (ikeys g) = false -> ival x g = 0%Z.
+Proof.
+  intros x g H. unfold ival. destruct (ifind x g) eqn:E; auto.
+  assert (mem x (ikeys g) = true) by (apply ifind_key; eauto). congruence.
+Qed.
+
+Lemma ikeys_single : forall qs t, ikeys [(qs, t)] = qs.
+Proof. intros. unfold ikeys. simpl. apply app_nil_r. Qed.
+
+Lemma parse_imp_ival : forall ps acc g, parse_imp ps acc = Ok g ->
+  forall x, ival x g = if mem x (ikeys acc) then ival x acc
+                       else match first_imp x ps with Some v => v | None => 0%Z end.
+Proof.
+  induction ps as [|[qs v] r IH]; intros acc g H x.
+  - simpl in H. inversion H; subst. cbn [first_imp]. destruct (mem x (ikeys g)) eqn:E; auto. apply ival_not_key. exact E.
+  - cbn [parse_imp] in H. destruct (disjointb qs (ikeys acc)); try discriminate.
+    rewrite (IH _ _ H x). rewrite ikeys_app, ikeys_single, mem_app. cbn [first_imp].
+    destruct (mem x (ikeys acc)) eqn:Ea; cbn [orb].
+    + unfold ival. rewrite ifind_app.
+      apply ifind_key in Ea. destruct Ea as [t Et]. rewrite Et. reflexivity.
+    + destruct (mem x qs) eqn:Eq; auto.
+      unfold ival. rewrite ifind_app.
+      destruct (ifind x acc) eqn:Ef.
+      * assert (mem x (ikeys acc) = true) by (apply ifind_key; eauto). congruence.
+      * cbn [ifind]. rewrite Eq. reflexivity.
+Qed.
+
+Definition is_some {A} (o : option A) : bool := match o with Some _ => true | None => false end.
+
+Lemma parse_cell_fields : forall fc c, parse_cell fc = Ok c ->
+  c_num c = fc_num fc /\
+  c_imp_set c = (match fc_imp fc with [] => false | _ => true end) /\
+  (fc_imp fc = [] -> c_imp c = blank_imp) /\
+  (forall x, fc_imp fc <> [] -> ival x (c_imp c) = match first_imp x (fc_imp fc) with Some v => v | None => 0%Z end) /\
+  c_vol c = vol_of_entry (fc_vol fc) /\ c_vol_set c = is_some (fc_vol fc) /\
+  c_u c = fc_u fc /\ c_u_set c = is_some (fc_u fc) /\
+  c_lat c = fc_lat fc /\ c_lat_set c = is_some (fc_lat fc) /\
+  c_fill c = fc_fill fc.
+Proof.
+  intros fc c H. unfold parse_cell in H.
+  destruct (fc_imp fc) as [|p ps] eqn:Ei.
+  - inversion H; subst; clear H.
+    cbn [c_num c_imp c_imp_set c_vol c_vol_set c_u c_u_set c_lat c_lat_set c_fill].
+    split; [reflexivity|]. split; [reflexivity|]. split; [reflexivity|]. split; [intros x N; contradiction|].
+    repeat split; try (destruct (fc_vol fc); reflexivity); try (destruct (fc_u fc); reflexivity);
+      try (destruct (fc_lat fc); reflexivity).
+  - destruct (parse_imp (p :: ps) []) as [g|] eqn:Eg; try discriminate.
+    inversion H; subst; clear H.
+    cbn [c_num c_imp c_imp_set c_vol c_vol_set c_u c_u_set c_lat c_lat_set c_fill].
+    split; [reflexivity|]. split; [reflexivity|]. split; [discriminate|]. split.
+    { intros x N. rewrite (parse_imp_ival _ _ _ Eg x). reflexivity. }
+    repeat split; try (destruct (fc_vol fc); reflexivity); try (destruct (fc_u fc); reflexivity);
+      try (destruct (fc_lat fc); reflexivity).
+Qed.
+
+(* --- frames of the setters *)
+Lemma frame_set_vol : forall c v, frame CVol c (set_vol c v).
+Proof. intros. unfold frame, set_vol. simpl. repeat split; auto; intros; try contradiction. Qed.
+Lemma frame_set_u : forall c v, frame CU c (set_u c v).
+Proof. intros. unfold frame, set_u. simpl. repeat split; auto; intros; try contradiction. Qed.
+Lemma frame_set_lat : forall c v, frame CLat c (set_lat c v).
+Proof. intros. unfold frame, set_lat. simpl. repeat split; auto; intros; try contradiction. Qed.
+Lemma frame_set_fill : forall c v, frame CFill c (set_fill c v).
+Proof. intros. unfold frame, set_fill. simpl. repeat split; auto; intros; try contradiction. Qed.
+
+Lemma Fvec_frame : forall d k setter chk i c c',
+  (forall c v, frame k c (setter c v)) -> Fvec d k setter chk i c c' -> frame k c c'.
+Proof.
+  intros d k setter chk i c c' Hs H. unfold Fvec in H.
+  destruct (find_vec d k) as [[|x r]|]; try (subst; apply frame_refl).
+  destruct H as [_ ->]. destruct (nth_error (x :: r) i); [apply Hs|apply frame_refl].
+Qed.
+
+Lemma Fimp_frame : forall d i c c', Fimp d i c c' -> frame CImp c c'.
+Proof. intros d i c c' [[_ ->]|[_ [_ [F _]]]]; [apply frame_refl|exact F]. Qed.
+
+Definition fill_one_block (f : file) : bool :=
+  match find_vec (f_data f) CFill with
+  | Some (_ :: _) => forallb (fun fc => negb (is_some (fc_fill fc))) (f_cells f)
+  | _ => true
+  end.
+
+Lemma blank_imp_singles : singles blank_imp = true.
+Proof. reflexivity. Qed.
+Lemma ival_blank : forall x, ival x blank_imp = 0%Z.
+Proof. intro x. unfold ival, blank_imp. simpl. destruct (Nat.eqb x neutron); reflexivity. Qed.
+
+Lemma cell_denote : forall mode d i fc c0 c1 c2 c3 c4 c5,
+  parse_cell fc = Ok c0 ->
+  Fimp d i c0 c1 ->
+  Fvec d CVol (fun c v => set_vol c (vol_of_entry v)) true i c1 c2 ->
+  (exists cm, Fvec d CU set_u true i c2 cm /\ c3 = u_default cm) ->
+  Fvec d CLat set_lat true i c3 c4 ->
+  Fvec d CFill set_fill false i c4 c5 ->
+  (forall x r, find_vec d CFill = Some (x :: r) -> fc_fill fc = None) ->
+  api_cell mode c5 = denote_cell mode d i fc.
+Proof.
+  intros mode d i fc c0 c1 c2 c3 c4 c5 Hp H1 H2 [cm [H3 E3]] H4 H5 Hfill.
+  destruct (parse_cell_fields _ _ Hp) as [Pn [Pis [Pblank [Pimp [Pv [Pvs [Pu [Pus [Pl [Pls Pf]]]]]]]]]].
+  pose proof (Fimp_frame _ _ _ _ H1) as F1.
+  pose proof (Fvec_frame _ _ _ _ _ _ _ (fun c v => frame_set_vol c (vol_of_entry v)) H2) as F2.
+  pose proof (Fvec_frame _ _ _ _ _ _ _ frame_set_u H3) as F3m.
+  assert (F3 : frame CU c2 c3).
+  { eapply frame_trans; [exact F3m|]. subst c3. apply frame_set_u. }
+  pose proof (Fvec_frame _ _ _ _ _ _ _ frame_set_lat H4) as F4.
+  pose proof (Fvec_frame _ _ _ _ _ _ _ frame_set_fill H5) as F5.
+  destruct F1 as [A1 [_ [A3 [A4 [A5 [A6 A7]]]]]].
+  destruct F2 as [B1 [B2 [_ [B4 [B5 [B6 B7]]]]]].
+  destruct F3 as [C1 [C2 [C3 [_ [C5 [C6 C7]]]]]].
+  destruct F4 as [D1 [D2 [D3 [D4 [_ [D6 D7]]]]]].
+  destruct F5 as [G1 [G2 [G3 [G4 [G5 [_ G7]]]]]].
+  unfold api_cell, denote_cell. f_equal.
+  - (* number *) congruence.
+  - (* importance *)
+    rewrite G2, D2, C2, B2 by discriminate.
+    apply map_ext. intro q. f_equal.
+    destruct H1 as [[Hno ->]|[Hyes [Hset [_ Himp]]]].
+    + rewrite (data_imp_no_card _ q i Hno).
+      destruct (fc_imp fc) as [|p ps] eqn:Ei.
+      * rewrite (Pblank eq_refl). simpl. apply ival_blank.
+      * rewrite Pimp by discriminate. destruct (first_imp q (p :: ps)); reflexivity.
+    + rewrite Pis in Hset. destruct (fc_imp fc) as [|p ps] eqn:Ei; try discriminate.
+      assert (S0 : singles (c_imp c0) = true) by (rewrite (Pblank eq_refl); reflexivity).
+      destruct (Himp S0) as [_ V]. rewrite V. simpl.
+      destruct (data_imp q i d); auto. rewrite (Pblank eq_refl). apply ival_blank.
+  - (* volume *)
+    rewrite G3, D3, C3 by discriminate.
+    unfold Fvec in H2. unfold data_val.
+    destruct (find_vec d CVol) as [[|x r]|].
+    + subst c2. rewrite A3, Pv by discriminate. destruct (fc_vol fc); destruct i; reflexivity.
+    + destruct H2 as [Hs ->]. specialize (Hs eq_refl). simpl in Hs.
+      assert (Hv0 : fc_vol fc = None).
+      { pose proof (A7 CVol) as X. simpl in X. rewrite X, Pvs in Hs. destruct (fc_vol fc); [discriminate|reflexivity]. }
+      rewrite Hv0. simpl.
+      destruct (nth_error (x :: r) i) as [[z|]|]; simpl; auto.
+      rewrite A3, Pv, Hv0 by discriminate. reflexivity.
+    + subst c2. rewrite A3, Pv by discriminate. destruct (fc_vol fc); reflexivity.
+  - (* universe *)
+    rewrite G4, D4 by discriminate. subst c3. unfold u_default, set_u. simpl. f_equal.
+    unfold Fvec in H3. unfold data_val.
+    destruct (find_vec d CU) as [[|x r]|].
+    + subst cm. rewrite B4, A4, Pu by discriminate. destruct (fc_u fc); destruct i; reflexivity.
+    + destruct H3 as [Hs ->]. specialize (Hs eq_refl). simpl in Hs.
+      assert (Hu0 : fc_u fc = None).
+      { pose proof (A7 CU) as X. pose proof (B7 CU) as Y. simpl in X, Y. rewrite Y, X, Pus in Hs.
+        destruct (fc_u fc); [discriminate|reflexivity]. }
+      rewrite Hu0. simpl.
+      destruct (nth_error (x :: r) i) as [[z|]|]; simpl; auto.
+      rewrite B4, A4, Pu, Hu0 by discriminate. reflexivity.
+    + subst cm. rewrite B4, A4, Pu by discriminate. destruct (fc_u fc); reflexivity.
+  - (* lattice *)
+    rewrite G5 by discriminate.
+    unfold Fvec in H4. unfold data_val.
+    destruct (find_vec d CLat) as [[|x r]|].
+    + subst c4. rewrite C5, B5, A5, Pl by discriminate. destruct (fc_lat fc); destruct i; reflexivity.
+    + destruct H4 as [Hs ->]. specialize (Hs eq_refl). simpl in Hs.
+      assert (Hl0 : fc_lat fc = None).
+      { pose proof (A7 CLat) as X. pose proof (B7 CLat) as Y. pose proof (C7 CLat) as Z0. simpl in X, Y, Z0.
+        rewrite Z0, Y, X, Pls in Hs. destruct (fc_lat fc); [discriminate|reflexivity]. }
+      rewrite Hl0. simpl.
+      destruct (nth_error (x :: r) i) as [[z|]|]; simpl; auto.
+      rewrite C5, B5, A5, Pl, Hl0 by discriminate. reflexivity.
+    + subst c4. rewrite C5, B5, A5, Pl by discriminate. destruct (fc_lat fc); reflexivity.
+  - (* fill *)
+    unfold Fvec in H5. unfold data_val.
+    destruct (find_vec d CFill) as [[|x r]|] eqn:Ef.
+    + subst c5. rewrite D6, C6, B6, A6, Pf by discriminate. destruct (fc_fill fc); destruct i; reflexivity.
+    + destruct H5 as [_ ->]. rewrite (Hfill x r eq_refl). simpl.
+      destruct (nth_error (x :: r) i) as [[z|]|]; simpl; auto.
+      rewrite D6, C6, B6, A6, Pf, (Hfill x r eq_refl) by discriminate. reflexivity.
+    + subst c5. rewrite D6, C6, B6, A6, Pf by discriminate. destruct (fc_fill fc); reflexivity.
+Qed.
+
+Lemma find_cell_fill_none : forall f, fill_one_block f = true ->
+  forall fc x r, In fc (f_cells f) -> find_vec (f_data f) CFill = Some (x :: r) -> fc_fill fc = None.
+Proof.
+  intros f H fc x r Hin Hf. unfold fill_one_block in H. rewrite Hf in H.
+  rewrite forallb_forall in H. specialize (H fc Hin). destruct (fc_fill fc); [discriminate|reflexivity].
+Qed.
+
+(* MontePy's reading of a file gives every cell the values the file means, whichever block states them *)
+Theorem read_denote : forall f s, read f = Ok s -> fill_one_block f = true -> per_cell s = denote f.
+Proof.
+  intros f s H Hfill. unfold read in H.
+  destruct (map_res parse_cell (f_cells f)) as [cells0|] eqn:E0; try discriminate.
+  destruct (load_slots (f_data f) [] []) as [slots|]; try discriminate.
+  destruct (push_all (f_mode f) (f_data f) all_cls cells0) as [c5|] eqn:EP; try discriminate.
+  inversion H; subst s; clear H. unfold per_cell, denote. cbn [s_mode s_cells].
+  unfold all_cls in EP. cbn [push_all] in EP.
+  destruct (push_cls (f_mode f) (f_data f) CImp cells0) as [c1|] eqn:P1; try discriminate.
+  destruct (push_cls (f_mode f) (f_data f) CVol c1) as [c2|] eqn:P2; try discriminate.
+  destruct (push_cls (f_mode f) (f_data f) CU c2) as [c3|] eqn:P3; try discriminate.
+  destruct (push_cls (f_mode f) (f_data f) CLat c3) as [c4|] eqn:P4; try discriminate.
+  destruct (push_cls (f_mode f) (f_data f) CFill c4) as [c5'|] eqn:P5; try discriminate.
+  assert (c5' = c5) by congruence. subst c5'. clear EP.
+  destruct (push_cls_imp_rel _ _ _ _ P1) as [L1 R1].
+  destruct (push_cls_vol_rel _ _ _ _ P2) as [L2 R2].
+  destruct (push_cls_u_rel _ _ _ _ P3) as [L3 R3].
+  destruct (push_cls_lat_rel _ _ _ _ P4) as [L4 R4].
+  destruct (push_cls_fill_rel _ _ _ _ P5) as [L5 R5].
+  pose proof (map_res_length _ _ _ E0) as L0.
+  apply nth_error_ext_eq. intro i. rewrite nth_error_map.
+  destruct (nth_error (f_cells f) i) as [fc|] eqn:Ei.
+  - destruct (map_res_nth _ _ _ _ _ E0 Ei) as [x0 [H0 Hp]].
+    destruct (R1 i x0 H0) as [x1 [H1 F1]].
+    destruct (R2 i x1 H1) as [x2 [H2 F2]].
+    destruct (R3 i x2 H2) as [x3 [H3 F3]].
+    destruct (R4 i x3 H3) as [x4 [H4 F4]].
+    destruct (R5 i x4 H4) as [x5 [H5 F5]].
+    rewrite H5. rewrite (denote_from_nth _ _ _ 0%nat i fc Ei). simpl. f_equal.
+    eapply cell_denote; eauto.
+    intros x r Hf. eapply find_cell_fill_none; eauto. eapply nth_error_In; eauto.
+  - assert (N5 : nth_error c5 i = None).
+    { apply nth_error_None. apply nth_error_None in Ei. lia. }
+    rewrite N5. simpl. symmetry. apply nth_error_None. rewrite denote_from_length. apply nth_error_None. exact Ei.
+Qed.
+
+Theorem either_block : forall f f' s s',
+  read f = Ok s -> read f' = Ok s' -> fill_one_block f = true -> fill_one_block f' = true ->
+  denote f = denote f' -> per_cell s = per_cell s'.
+Proof.
+  intros f f' s s' H H' Hf Hf' E. rewrite (read_denote f s H Hf), (read_denote f' s' H' Hf'). exact E.
+Qed.
